@@ -25,7 +25,7 @@ fn show_entry(e: &Entry) -> String {
         },
         e.checksums
             .iter()
-            .map(|c| format!("{}={}", alg_idx(&c.digest), show_text(&c.hash)))
+            .map(|c| format!("{}={}", alg_idx(&c.digest), show_bytes(c.hash.as_bytes())))
             .collect::<Vec<_>>()
             .join(",")
     )
@@ -67,8 +67,8 @@ fn verr(e: &DistinfoError) -> String {
         DistinfoError::Checksum(p, d, exp, act) => format!(
             "E:Checksum:{}:{}:{}:{}",
             alg_idx(d),
-            show_text(exp),
-            show_text(act),
+            show_bytes(exp.as_bytes()),
+            show_bytes(act.as_bytes()),
             show_bytes(path_bytes(p))
         ),
         DistinfoError::MissingChecksum(_, _) => "E:MissingChecksum".into(),
